@@ -94,6 +94,7 @@ def main(argv):
     undecided = []
     trusted = set()
     rules = {}
+    inlined = []
     functions = []
     solver_ms = {}
     twins_total = twins_rejected = 0
@@ -119,6 +120,7 @@ def main(argv):
             trusted.add("%s: %s" % (un, t))
         for k, v in r["rules_applied"].items():
             rules[k] = rules.get(k, 0) + v
+        inlined += ["%s: %s" % (un, x) for x in r.get("inlined", [])] + ["%s: R16-pad %s" % (un, x) for x in r.get("padded", [])]
         for c in r.get("contracted", []):
             functions.append("%s (%s:%d)" % (c["fn"], c["src"], c["src_line"]))
         for fn, f in r.get("functions", {}).items():
@@ -202,6 +204,7 @@ def main(argv):
             by_backend=by_backend,
             solver_ms=solver_ms,
             rules_applied=rules,
+            helpers_inlined_and_signatures_padded=inlined,   # R19 / R16-pad: empty on the pinned tree
             twins_rejected=twins_rejected, twins_total=twins_total,
             known_findings_reported=known_reported,
             bounded_checks=[dict(id=oid, bound=o.get("bounded"), status=o["status"]) for oid, o in relevant.items() if o.get("bounded")],
